@@ -20,7 +20,7 @@ import os
 import sys
 
 HERE = os.path.dirname(os.path.abspath(__file__))
-REPO = os.environ.get("JSONSCHEMA_REPO", "/repo")
+REPO = os.environ.get("JS_REPO", "/repo")
 OUT = os.path.join(os.path.dirname(HERE), "lean", "JS", "Generated", "Source.lean")
 
 FILES = ["_validators.py", "_legacy_validators.py"]
